@@ -368,10 +368,33 @@ impl Serialize for Reentrant {
     }
 }
 
+/// enum variants with several embedded values, reached through shapes that make serde buffer
+/// them before they reach the serializer (an internally tagged enum around them, `flatten`)
+#[derive(Serialize)]
+enum Several {
+    Tup(Value, Value, Value),
+    St { a: Value, b: Value },
+}
+
+#[derive(Serialize)]
+#[serde(tag = "kind")]
+enum Tagged {
+    Wrap(Several),
+}
+
+#[derive(Serialize)]
+struct Flattening {
+    #[serde(flatten)]
+    inner: Several,
+    z: u8,
+}
+
 #[derive(Serialize)]
 struct Holder {
     before: u8,
     pre: Reentrant,
+    tagged: Option<Tagged>,
+    flat: Option<Flattening>,
     v: Value,
     list: Vec<Value>,
     map: BTreeMap<String, Value>,
@@ -451,6 +474,8 @@ impl Part for Embedded {
         let inner = Holder {
             before: 1,
             pre: Reentrant { active: c.layout & 8 == 8, payload: vec![] },
+            tagged: None,
+            flat: None,
             v: made.last().unwrap().0.clone(),
             list: vec![],
             map: BTreeMap::new(),
@@ -461,6 +486,27 @@ impl Part for Embedded {
         let holder = Holder {
             before: c.layout,
             pre: Reentrant { active: c.layout & 4 == 4, payload: made.iter().map(|x| x.0.clone()).collect() },
+            tagged: if c.layout & 16 == 16 {
+                Some(Tagged::Wrap(if c.layout & 32 == 32 {
+                    Several::Tup(first.clone(), made.last().unwrap().0.clone(), made[made.len() / 2].0.clone())
+                } else {
+                    Several::St { a: first.clone(), b: made.last().unwrap().0.clone() }
+                }))
+            } else {
+                None
+            },
+            flat: if c.layout & 64 == 64 {
+                Some(Flattening {
+                    inner: if c.layout & 32 == 32 {
+                        Several::St { a: made.last().unwrap().0.clone(), b: first.clone() }
+                    } else {
+                        Several::Tup(made.last().unwrap().0.clone(), first.clone(), made[made.len() / 2].0.clone())
+                    },
+                    z: 7,
+                })
+            } else {
+                None
+            },
             v: first.clone(),
             list: made.iter().map(|x| x.0.clone()).collect(),
             map: made
@@ -489,6 +535,35 @@ impl Part for Embedded {
         let pre = value.get_attr("pre").unwrap_or_default();
         for (i, m) in made.iter().enumerate() {
             check(&format!("pre[{i}]"), m, pre.get_item(&Value::from(i)), &mut v);
+        }
+        let last = made.last().unwrap();
+        let mid = &made[made.len() / 2];
+        if c.layout & 16 == 16 {
+            v.labels.push("values_in_buffered_variant");
+            let t = value.get_attr("tagged").unwrap_or_default();
+            if c.layout & 32 == 32 {
+                let tup = t.get_attr("Tup").unwrap_or_default();
+                check("tagged.Tup[0]", &made[0], tup.get_item(&Value::from(0)), &mut v);
+                check("tagged.Tup[1]", last, tup.get_item(&Value::from(1)), &mut v);
+                check("tagged.Tup[2]", mid, tup.get_item(&Value::from(2)), &mut v);
+            } else {
+                let st = t.get_attr("St").unwrap_or_default();
+                check("tagged.St.a", &made[0], st.get_attr("a"), &mut v);
+                check("tagged.St.b", last, st.get_attr("b"), &mut v);
+            }
+        }
+        if c.layout & 64 == 64 {
+            let f = value.get_attr("flat").unwrap_or_default();
+            if c.layout & 32 == 32 {
+                let st = f.get_attr("St").unwrap_or_default();
+                check("flat.St.a", last, st.get_attr("a"), &mut v);
+                check("flat.St.b", &made[0], st.get_attr("b"), &mut v);
+            } else {
+                let tup = f.get_attr("Tup").unwrap_or_default();
+                check("flat.Tup[0]", last, tup.get_item(&Value::from(0)), &mut v);
+                check("flat.Tup[1]", &made[0], tup.get_item(&Value::from(1)), &mut v);
+                check("flat.Tup[2]", mid, tup.get_item(&Value::from(2)), &mut v);
+            }
         }
         check("field v", &made[0], value.get_attr("v"), &mut v);
         if value.get_attr("before").ok() != Some(Value::from(c.layout)) || value.get_attr("after").ok() != Some(Value::from("out")) {
@@ -757,7 +832,7 @@ impl Part for ToJson {
 crate::declare_parts!(RoundTrip, Embedded, ToJson);
 
 pub fn run(ctx: &mut Ctx) {
-    ctx.rule = "round trip: shape trees (depth <= 5) instantiated through an enum covering every serde variant/struct shape (unit/newtype/tuple/struct variants, structs, newtype/tuple/unit structs, options, sequences, tuples, maps keyed by string/int/u64/bool/char/tuple, byte strings, f32/f64 by bit pattern, chars and strings incl. control characters, U+2028/9, HTML metacharacters, the value-handle marker text); T::deserialize(Value::from(Serde(&x))) must equal x through both the by-value and by-reference deserializer. Embedded values: structs holding Value fields (safe strings, undefined, none, dynamic objects, nested lists) must expose the very same values after conversion, also when a field's Serialize impl runs a nested Value conversion of its own (the serializing_for_value() pattern) before them. tojson: generated value trees (depth <= 3, all representations, maps with scalar and unrepresentable keys) rendered with tojson (with/without indent, .txt/.html) and JSON auto-escaping; output parsed by an independent strict RFC 8259 parser and compared. Non-trivial: depth >= 2 with an enum variant / non-string-keyed map; embedded: >= 2 values; tojson: a string needing an escape inside a container. Distinct by encoded case.".into();
+    ctx.rule = "round trip: shape trees (depth <= 5) instantiated through an enum covering every serde variant/struct shape (unit/newtype/tuple/struct variants, structs, newtype/tuple/unit structs, options, sequences, tuples, maps keyed by string/int/u64/bool/char/tuple, byte strings, f32/f64 by bit pattern, chars and strings incl. control characters, U+2028/9, HTML metacharacters, the value-handle marker text); T::deserialize(Value::from(Serde(&x))) must equal x through both the by-value and by-reference deserializer. Embedded values: structs holding Value fields (safe strings, undefined, none, dynamic objects, nested lists) must expose the very same values after conversion, also inside enum variants that serde buffers before serializing them (internally tagged enums, flatten) and when a field's Serialize impl runs a nested Value conversion of its own (the serializing_for_value() pattern) before them. tojson: generated value trees (depth <= 3, all representations, maps with scalar and unrepresentable keys) rendered with tojson (with/without indent, .txt/.html) and JSON auto-escaping; output parsed by an independent strict RFC 8259 parser and compared. Non-trivial: depth >= 2 with an enum variant / non-string-keyed map; embedded: >= 2 values; tojson: a string needing an escape inside a container. Distinct by encoded case.".into();
     ctx.assumptions = vec![
         "model/json.rs is a correct strict JSON parser (unit tested)".into(),
         "floats are compared by bit pattern (all NaNs alike); -0.0 must keep its sign through JSON".into(),
